@@ -177,6 +177,8 @@ pub fn units(prop: &str, tier: Tier) -> Option<Vec<Unit>> {
                 v.push(class(&format!("k01-{}", kind.name()), &k, pick(3, 4)).kind(kind).alarm(alarm).unit());
             }
             v.push(e1("k01-by-reference-slice", format!("every K01 grammar with <= {} nodes that reads a token through any / select, rewritten to any_ref / select_ref", pick(3, 4)), en::by_ref_all(&k.upto(pick(3, 4)))).kind(KindId::Slice).alarm(alarm).unit());
+            // the option rule again, with the option driven as an iterable parser (IterParser for OrNot)
+            v.push(e1("k01-option-as-iterator", format!("a.or_not() used through its IterParser impl (collect, count, unit parser, collect_exactly, foldl, foldr) for every K01 grammar a with <= {} nodes, and pairs of options / an option and a repetition chained with IterParser::then, each followed by a rest capture", pick(2, 3)), en::k01_opt_iter(pick(2, 3))).alarm(alarm).unit());
             if !q {
                 v.push(class("kcore-deep", &en::k_core(), 6).alarm(alarm).unit());
             }
@@ -550,6 +552,7 @@ pub fn units(prop: &str, tier: Tier) -> Option<Vec<Unit>> {
                     .pairs(PairMode::Exact)
                     .unit(),
                 rec_unit("leftrec", tier),
+                rec_unit("memo-shared-by-clone", tier),
             ]
         }
         "C12" => vec![
@@ -579,6 +582,8 @@ pub fn units(prop: &str, tier: Tier) -> Option<Vec<Unit>> {
                 Unit::Custom { name: "threads".into(), run: Box::new(move |cx| eng_hist::run("threads", tier, cx)) },
                 // recursive parsers as values: clone / boxed / drop-the-original / parse histories
                 rec_unit("rec-lifecycle", tier),
+                // a clone of a memoized parser is interchangeable with its original inside one grammar too
+                rec_unit("memo-shared-by-clone", tier),
             ]
         }
         "C14" => eng_text::units(tier)
